@@ -1,6 +1,8 @@
 use crate::debugger::address::RelocatedAddress;
 use crate::debugger::debugee::dwarf::EndianArcSlice;
-use crate::debugger::debugee::dwarf::eval::{AddressKind, ExpressionEvaluator};
+use crate::debugger::debugee::dwarf::eval::{
+    AddressKind, ExpressionEvaluator, ExternalRequirementsResolver,
+};
 use crate::debugger::debugee::{Debugee, Location};
 use crate::debugger::error::Error;
 use crate::debugger::error::Error::{
@@ -211,7 +213,12 @@ impl<'a> UnwindContext<'a> {
                         let expr = weak_error!(expr.get(&dwarf.eh_frame))?;
                         let evaluator =
                             weak_error!(lazy_evaluator.try_get_or_insert_with(evaluator_init_fn))?;
-                        let expr_result = weak_error!(evaluator.evaluate(ecx, expr))?;
+                        // evaluated over the registers of the frame being unwound (restoring
+                        // them through the evaluator would unwind this very frame again)
+                        let resolver = ExternalRequirementsResolver::new()
+                            .with_entry_registers(ecx.pid_on_focus(), registers_snap.clone());
+                        let expr_result =
+                            weak_error!(evaluator.evaluate_with_resolver(resolver, ecx, expr))?;
                         let addr = weak_error!(
                             expr_result.into_scalar::<usize>(AddressKind::MemoryAddress)
                         )?;
@@ -221,7 +228,13 @@ impl<'a> UnwindContext<'a> {
                         let expr = weak_error!(expr.get(&dwarf.eh_frame))?;
                         let evaluator =
                             weak_error!(lazy_evaluator.try_get_or_insert_with(evaluator_init_fn))?;
-                        let expr_result = weak_error!(evaluator.evaluate(ecx, expr.clone()))?;
+                        let resolver = ExternalRequirementsResolver::new()
+                            .with_entry_registers(ecx.pid_on_focus(), registers_snap.clone());
+                        let expr_result = weak_error!(evaluator.evaluate_with_resolver(
+                            resolver,
+                            ecx,
+                            expr.clone()
+                        ))?;
                         weak_error!(expr_result.into_scalar::<usize>(AddressKind::MemoryAddress))?
                             as u64
                     }
